@@ -31,14 +31,14 @@ func c10Scenario(w *World) {
 		w.Cfg.Packages = true
 		pe := s.Bool("pull-errors") // always drawn: the reference run must consume the same choices
 		w.Cfg.Faults["pull-error"] = !w.Cfg.FaultFree && pe
-		w.Scenario = GenPKG(w, 3, "no-error-loops")
+		w.Scenario = GenPKG(w, 3, "no-error-loops", "final-delete")
 	case 3:
 		w.Cfg.Templates = true
 		w.Scenario = GenOT(w, 4)
 	case 0:
 		w.Scenario = GenOS(w, OSProfile{MaxSets: 3, Delegation: true, Lifecycle: true, LateCreate: true, AllLate: true, CompletePrev: true, OldestFirst: true, Intruder: "granular", DriftOnly: true, Finalizers: true})
 	case 1:
-		w.Scenario = GenOD(w, ODProfile{MaxEdits: 4, Pause: true, Limits: true, Delegation: s.Bool("delegation"), NeverReady: s.Chance(1, 3, "never-ready")})
+		w.Scenario = GenOD(w, ODProfile{MaxEdits: 4, Pause: true, Limits: true, Delegation: s.Bool("delegation"), NeverReady: s.Chance(1, 3, "never-ready"), FinalDelete: true})
 	}
 	for _, a := range w.agents {
 		if wl, ok := a.(*WorkloadAgent); ok {
